@@ -154,7 +154,7 @@ for n in RESERVED:
         inst("name:" + v, "name0", False, set_name(v))
 for n in NEAR:
     inst("name:" + n, "name0", True, set_name(n))
-for n in ("é", "aé", "a-b", "a.b", "9a", "a b", "\u212a"):  # not identifiers at all / non-ASCII (incl. U+212A KELVIN SIGN)
+for n in ("é", "aé", "a-b", "a.b", "9a", "a b", "\u212a", "\u212aelvin", "x\u212a", "e\u0301", "caf\u00e9", "\uff21bc"):  # not identifiers at all / non-ASCII (incl. characters that NFC / NFKC / case folding map to ASCII)
     inst("name:" + n, "name0", False, set_name(n))
 inst("constname:uint8", "cname", False, lambda S: S["sections"][0]["attrs"].__setitem__(-1 if S["sections"][0]["attrs"][-1][0] == "const" else [i for i, a in enumerate(S["sections"][0]["attrs"]) if a[0] == "const"][0], ["const", "uint8", "uint8", "3"]))
 inst("constname:OK_1", "cname", True, lambda S: [a.__setitem__(2, "OK_1") for a in S["sections"][0]["attrs"] if a[0] == "const"])
